@@ -679,6 +679,47 @@ func (g *FuncGen) havocLocation(env *Env, e Expr) {
 		}
 		cl := c.cellClass(pt)
 		g.heapStore(cl, base.T, c.fresh("havoc_cell", c.sortOf(pt)))
+	case *ECall:
+		// fieldsof(T): any field of any object of struct type T (only in trusted contracts of external functions)
+		if x.Fun == "fieldsof" && len(x.Args) == 1 {
+			t, _ := g.specType(x.Args[0].String(), env.pkg)
+			if t == nil {
+				t, _ = g.specType(x.Args[0].String(), g.pkg)
+			}
+			if t == nil {
+				g.unsup("assigns %s: unknown type", e)
+			}
+			if _, _, ok := c.structOf(t); !ok {
+				g.unsup("assigns %s: not a struct type", e)
+			}
+			seen := map[string]bool{}
+			var hv func(t types.Type)
+			hv = func(t types.Type) {
+				st, name, ok := c.structOf(t)
+				if !ok || seen[name] {
+					return
+				}
+				seen[name] = true
+				for _, cl := range append([]string{}, c.classList...) {
+					if strings.HasPrefix(cl, "F_"+name+"_") {
+						g.cur.heap[cl] = c.fresh(cl+"@havoc", c.classes[cl])
+					}
+				}
+				for i := 0; i < st.NumFields(); i++ {
+					ft := st.Field(i).Type()
+					if isStructType(ft) {
+						hv(ft) // embedded / nested struct values live in their own field classes
+					}
+					if at, ok := ft.Underlying().(*types.Array); ok {
+						cl := c.elemClass(at.Elem())
+						g.cur.heap[cl] = c.fresh(cl+"@havoc", c.classes[cl])
+					}
+				}
+			}
+			hv(t)
+			return
+		}
+		g.unsup("assigns %s", e)
 	case *EIdent:
 		if _, ok := g.prog.Ghosts[x.Name]; ok {
 			g.cur.ghost[x.Name] = c.fresh("ghost_"+x.Name, g.specSort(g.prog.Ghosts[x.Name].Type))
